@@ -266,3 +266,240 @@ Qed.
 
 Lemma F_good_not_pending_active : forall x, status_in x GOOD_STATUSES = true -> x <> S_PENDING -> status_in x ACTIVE_STATUSES = true.
 Proof. intros x H Hn. destruct x; try discriminate H; try reflexivity. exfalso; apply Hn; reflexivity. Qed.
+
+(* the uncontextualised workflow events ("workflow_<status>") are in the task table from "retrying" only *)
+Lemma F_wf_base_only_from_retrying : forall st s t, tbl_step task_table s (WORKFLOW_EVENT_PREFIX ++ status_name st) = Some t -> s = S_RETRYING.
+Proof.
+  intros st s t H.
+  assert (T : forall nm, table_forall task_table (fun s e _ => negb (String.eqb e nm) || status_eqb s S_RETRYING) = true ->
+              tbl_step task_table s nm = Some t -> s = S_RETRYING).
+  { intros nm T X. pose proof (table_forall_step _ _ T _ _ _ X) as P. cbv beta in P. rewrite String.eqb_refl in P. apply status_eqb_eq. exact P. }
+  destruct st; (eapply T; [|exact H]; vm_compute; reflexivity).
+Qed.
+
+(* ---- the workflow table: "paused" and "canceled" are entered only when no task is active ---- *)
+From Orq Require Import F_names F_sys.
+
+Lemma F_rest_needs_dormant_task : forall s st r a c p m,
+  let n := step_or_stay s (task_event_name_of st r a c p m) in
+  In n [S_PAUSED; S_CANCELED] -> a = false \/ n = s.
+Proof.
+  intros s st r a c p m.
+  assert (T : names_forall (fun st r a c p m =>
+     forallb (fun s => let n := step_or_stay s (task_event_name_of st r a c p m) in
+                       negb (status_in n [S_PAUSED; S_CANCELED]) || negb a || status_eqb n s) all_statuses) = true)
+    by (vm_compute; reflexivity).
+  pose proof (names_forall_spec _ T st r a c p m) as P; cbv beta in P.
+  rewrite forallb_forall in P. specialize (P s (all_statuses_complete s)). cbv zeta in P. cbv zeta.
+  intro Hn. apply status_in_In in Hn. rewrite Hn in P. cbn [negb orb] in P.
+  apply orb_prop in P. destruct P as [P|P]; [left; apply negb_true_iff; exact P|right; apply status_eqb_eq; exact P].
+Qed.
+
+Lemma F_rest_needs_dormant_request : forall s st a d,
+  let n := step_or_stay s (request_event_name_of st a d) in
+  In n [S_PAUSED; S_CANCELED] -> a = false \/ n = s.
+Proof.
+  intros s st a d.
+  assert (T : forallb (fun s => forallb (fun st => forallb (fun a => forallb (fun d =>
+      let n := step_or_stay s (request_event_name_of st a d) in
+      negb (status_in n [S_PAUSED; S_CANCELED]) || negb a || status_eqb n s)
+      [true; false]) [true; false]) all_statuses) all_statuses = true) by (vm_compute; reflexivity).
+  rewrite forallb_forall in T. specialize (T s (all_statuses_complete s)).
+  rewrite forallb_forall in T. specialize (T st (all_statuses_complete st)).
+  rewrite forallb_forall in T. specialize (T a (ltac:(destruct a; simpl; auto))).
+  rewrite forallb_forall in T. specialize (T d (ltac:(destruct d; simpl; auto))).
+  cbv zeta in T. cbv zeta. intro Hn. apply status_in_In in Hn. rewrite Hn in T. cbn [negb orb] in T.
+  apply orb_prop in T. destruct T as [T|T]; [left; apply negb_true_iff; exact T|right; apply status_eqb_eq; exact T].
+Qed.
+
+(* engine events (commands, the retry event) never make a task active *)
+Lemma F_engine_not_active : forall s n t, string_in n ["task_continue_requested"; "task_fail_requested"; "task_noop_requested"; "task_retry_requested"] = true ->
+  tbl_step task_table s n = Some t -> status_in t ACTIVE_STATUSES = false.
+Proof.
+  intros s n t Hn H.
+  assert (T : table_forall task_table (fun _ e t => negb (string_in e ["task_continue_requested"; "task_fail_requested"; "task_noop_requested"; "task_retry_requested"])
+                                                  || negb (status_in t ACTIVE_STATUSES)) = true) by (vm_compute; reflexivity).
+  pose proof (table_forall_step _ _ T _ _ _ H) as P. cbv beta in P. rewrite Hn in P. apply negb_true_iff in P. exact P.
+Qed.
+
+(* ---- a completion report never makes an inactive task active ---- *)
+Definition completion_prefixes : list string := map (fun st => ACTION_EVENT_PREFIX ++ status_name st) COMPLETED_STATUSES.
+Definition completion_name (e : string) : bool := existsb (fun p => starts_with p e) completion_prefixes.
+
+Lemma F_completion_no_activation : forall s e t, tbl_step task_table s e = Some t -> completion_name e = true ->
+  status_in t ACTIVE_STATUSES = true -> status_in s ACTIVE_STATUSES = true.
+Proof.
+  intros s e t H Hc Ht.
+  assert (T : table_forall task_table (fun s e t => negb (completion_name e) || negb (status_in t ACTIVE_STATUSES) || status_in s ACTIVE_STATUSES) = true)
+    by (vm_compute; reflexivity).
+  pose proof (table_forall_step _ _ T _ _ _ H) as P. cbv beta in P. rewrite Hc, Ht in P. exact P.
+Qed.
+
+Lemma F_item_name_completion : forall w t route i st n, status_in st COMPLETED_STATUSES = true ->
+  item_event_name w t route i st = Val n -> completion_name n = true.
+Proof.
+  intros w t route i st n Hst H. unfold item_event_name in H.
+  destruct (negb (status_in st item_requirements)).
+  { inversion H; subst n. destruct st; try discriminate Hst; vm_compute; reflexivity. }
+  destruct (get_staged_task w t route) as [s|].
+  2: { inversion H; subst n. destruct st; try discriminate Hst; vm_compute; reflexivity. }
+  destruct (s_items s) as [l|].
+  2: { inversion H; subst n. destruct st; try discriminate Hst; vm_compute; reflexivity. }
+  destruct (negb (Nat.ltb i (length l))); [discriminate|]. cbv zeta in H.
+  repeat match type of H with context [if ?b then _ else _] => destruct b end;
+    inversion H; subst n; destruct st; try discriminate Hst; vm_compute; reflexivity.
+Qed.
+
+Lemma F_action_name_completion : forall st, status_in st COMPLETED_STATUSES = true ->
+  completion_name (ACTION_EVENT_PREFIX ++ status_name st) = true.
+Proof. intros st H. destruct st; try discriminate H; vm_compute; reflexivity. Qed.
+
+(* ---- the workflow table: "pausing" and "canceling" need an active task ---- *)
+Definition ITEM_STATUSES : list status := [S_RUNNING; S_PAUSING; S_PAUSED; S_CANCELING; S_CANCELED; S_SUCCEEDED; S_FAILED; S_RETRYING].
+
+(* after a task event: st = the status of the reporting record (one of the statuses a record has under the protocol),
+   counted active when it is active *)
+Lemma F_held_needs_active_task : forall s st r a c p m, status_in st ITEM_STATUSES = true ->
+  (status_in st ACTIVE_STATUSES = true -> a = true) ->
+  In (step_or_stay s (task_event_name_of st r a c p m)) [S_PAUSING; S_CANCELING] -> a = true.
+Proof.
+  intros s st r a c p m Hst Hact.
+  assert (T : names_forall (fun st r a c p m =>
+     negb (status_in st ITEM_STATUSES) || (status_in st ACTIVE_STATUSES && negb a)
+     || forallb (fun s => negb (status_in (step_or_stay s (task_event_name_of st r a c p m)) [S_PAUSING; S_CANCELING]) || a) all_statuses) = true)
+    by (vm_compute; reflexivity).
+  pose proof (names_forall_spec _ T st r a c p m) as P; cbv beta in P. rewrite Hst in P. cbn [negb orb] in P.
+  intro Hn. destruct a; [reflexivity|]. exfalso.
+  destruct (status_in st ACTIVE_STATUSES) eqn:Ea; [specialize (Hact eq_refl); discriminate Hact|]. cbn [andb orb negb] in P.
+  rewrite forallb_forall in P. specialize (P s (all_statuses_complete s)). apply status_in_In in Hn. rewrite Hn in P. discriminate P.
+Qed.
+
+(* after a status request (d = the "completed" suffix, only possible from paused): the status CHANGES to pausing /
+   canceling only with an active task; and a request for the status the workflow has, or "paused" while pausing,
+   "canceled" while canceling, keeps pausing / canceling only with an active task *)
+Lemma F_held_needs_active_request : forall s st a d, status_in st request_statuses_f = true -> (d = true -> s = S_PAUSED) ->
+  let n := step_or_stay s (request_event_name_of st a d) in
+  In n [S_PAUSING; S_CANCELING] ->
+  a = true \/ (n = s /\ st <> s /\ ~ (st = S_PAUSED /\ s = S_PAUSING) /\ ~ (st = S_CANCELED /\ s = S_CANCELING)).
+Proof.
+  intros s st a d Hst Hd.
+  assert (T : forallb (fun s => forallb (fun st => forallb (fun a => forallb (fun d =>
+      negb (status_in st request_statuses_f) || (d && negb (status_eqb s S_PAUSED))
+      || (let n := step_or_stay s (request_event_name_of st a d) in
+          negb (status_in n [S_PAUSING; S_CANCELING]) || a
+          || (status_eqb n s && negb (status_eqb st s) && negb (status_eqb st S_PAUSED && status_eqb s S_PAUSING)
+              && negb (status_eqb st S_CANCELED && status_eqb s S_CANCELING))))
+      [true; false]) [true; false]) all_statuses) all_statuses = true) by (vm_compute; reflexivity).
+  rewrite forallb_forall in T. specialize (T s (all_statuses_complete s)).
+  rewrite forallb_forall in T. specialize (T st (all_statuses_complete st)).
+  rewrite forallb_forall in T. specialize (T a (ltac:(destruct a; simpl; auto))).
+  rewrite forallb_forall in T. specialize (T d (ltac:(destruct d; simpl; auto))).
+  rewrite Hst in T. cbn [negb orb] in T.
+  assert (E : d && negb (status_eqb s S_PAUSED) = false).
+  { destruct d; [|reflexivity]. rewrite (Hd eq_refl). reflexivity. }
+  rewrite E in T. cbn [orb] in T. cbv zeta in T. cbv zeta. intro Hn. apply status_in_In in Hn. rewrite Hn in T. cbn [negb orb] in T.
+  apply orb_prop in T. destruct T as [T|T]; [left; exact T|right].
+  apply andb_prop in T. destruct T as [T T4]. apply andb_prop in T. destruct T as [T T3]. apply andb_prop in T. destruct T as [T1 T2].
+  split; [apply status_eqb_eq; exact T1|]. split.
+  - intro X. subst st. rewrite status_eqb_refl in T2. discriminate T2.
+  - split; intros [X Y]; subst; [rewrite !status_eqb_refl in T3; discriminate T3|rewrite !status_eqb_refl in T4; discriminate T4].
+Qed.
+
+(* ---- the statuses the protocol never gives a record ---- *)
+Definition UNUSED_STATUSES : list status := [S_PENDING; S_REQUESTED; S_SCHEDULED; S_DELAYED; S_EXPIRED; S_ABANDONED; S_RESUMING].
+Definition ENTER_NAMES : list string := ["action_requested"; "action_scheduled"; "action_delayed"; "action_pending"; "action_resuming"].
+
+Lemma F_unused_entered_by : forall s e t, tbl_step task_table s e = Some t -> status_in s UNUSED_STATUSES = false ->
+  status_in t UNUSED_STATUSES = true -> string_in e ENTER_NAMES = true.
+Proof.
+  intros s e t H Hs Ht.
+  assert (T : table_forall task_table (fun s e t => status_in s UNUSED_STATUSES || negb (status_in t UNUSED_STATUSES) || string_in e ENTER_NAMES) = true)
+    by (vm_compute; reflexivity).
+  pose proof (table_forall_step _ _ T _ _ _ H) as P. cbv beta in P. rewrite Hs, Ht in P. exact P.
+Qed.
+
+Definition START_STATUSES : list status := [S_PENDING; S_REQUESTED; S_SCHEDULED; S_DELAYED; S_RESUMING].
+Definition nbad (e : event) : Prop :=
+  match e with
+  | EvAction st _ | EvItem _ st _ _ => status_in st START_STATUSES = false
+  | EvEngine n _ => string_in n ENTER_NAMES = false
+  | EvWorkflow _ => True
+  end.
+
+Lemma F_item_name_not_enter : forall w t route i st n, status_in st START_STATUSES = false ->
+  item_event_name w t route i st = Val n -> string_in n ENTER_NAMES = false.
+Proof.
+  intros w t route i st n Hst H. unfold item_event_name in H.
+  destruct (negb (status_in st item_requirements)).
+  { inversion H; subst n. destruct st; try discriminate Hst; vm_compute; reflexivity. }
+  destruct (get_staged_task w t route) as [s|].
+  2: { inversion H; subst n. destruct st; try discriminate Hst; vm_compute; reflexivity. }
+  destruct (s_items s) as [l|].
+  2: { inversion H; subst n. destruct st; try discriminate Hst; vm_compute; reflexivity. }
+  destruct (negb (Nat.ltb i (length l))); [discriminate|]. cbv zeta in H.
+  repeat match type of H with context [if ?b then _ else _] => destruct b end;
+    inversion H; subst n; destruct st; try discriminate Hst; vm_compute; reflexivity.
+Qed.
+
+Lemma F_wf_name_not_enter : forall w t route st, string_in (task_workflow_event_name w t route st) ENTER_NAMES = false.
+Proof.
+  intros w t route st. unfold task_workflow_event_name.
+  repeat match goal with |- context [match ?x with _ => _ end] => destruct x end; destruct st; vm_compute; reflexivity.
+Qed.
+
+Lemma F_sys_step_val : forall cur n ns, task_table_step cur n = Val ns -> tbl_step task_table cur n = ns.
+Proof. intros cur n ns H; unfold task_table_step in H; unfold tbl_step. destruct (tbl_row task_table cur); inversion H; reflexivity. Qed.
+
+Lemma F_tpe_nbad : forall w r e x, nbad e -> status_in (rstatus r) UNUSED_STATUSES = false ->
+  task_process_event w r e = Val (Some x) -> status_in x UNUSED_STATUSES = false.
+Proof.
+  intros w r e x Hn Hs H. destruct (status_in x UNUSED_STATUSES) eqn:Ex; [|reflexivity]. exfalso.
+  unfold task_process_event in H. destruct e as [st|st res|i st res acc|n st].
+  - destruct (negb _); [discriminate|]. apply F_sys_step_val in H.
+    pose proof (F_unused_entered_by _ _ _ H Hs Ex) as X. rewrite F_wf_name_not_enter in X. discriminate X.
+  - destruct (negb _); [discriminate|]. apply F_sys_step_val in H.
+    pose proof (F_unused_entered_by _ _ _ H Hs Ex) as X. simpl in Hn, X. destruct st; try discriminate Hn; vm_compute in X; discriminate X.
+  - destruct (negb _); [discriminate|]. destruct (item_event_name w (r_id r) (r_route r) i st) as [n|y] eqn:En; [|discriminate].
+    apply F_sys_step_val in H. pose proof (F_unused_entered_by _ _ _ H Hs Ex) as X.
+    rewrite (F_item_name_not_enter _ _ _ _ _ _ Hn En) in X. discriminate X.
+  - destruct (negb _); [discriminate|]. apply F_sys_step_val in H.
+    pose proof (F_unused_entered_by _ _ _ H Hs Ex) as X. unfold nbad in Hn. change (string_in n ENTER_NAMES = true) in X. rewrite Hn in X. discriminate X.
+Qed.
+
+(* no row of the task table leads to "unset" *)
+Lemma F_never_unset : forall s e t, tbl_step task_table s e = Some t -> t <> S_UNSET.
+Proof.
+  intros s e t H.
+  assert (T : table_forall task_table (fun _ _ t => negb (status_eqb t S_UNSET)) = true) by (vm_compute; reflexivity).
+  pose proof (table_forall_step _ _ T _ _ _ H) as P. cbv beta in P. intro X. subst t. discriminate P.
+Qed.
+
+Lemma F_tpe_not_unset : forall w r e x, task_process_event w r e = Val (Some x) -> x <> S_UNSET.
+Proof.
+  intros w r e x H. unfold task_process_event in H. destruct e as [st|st res|i st res acc|n st].
+  - destruct (negb _); [discriminate|]. apply F_sys_step_val in H. exact (F_never_unset _ _ _ H).
+  - destruct (negb _); [discriminate|]. apply F_sys_step_val in H. exact (F_never_unset _ _ _ H).
+  - destruct (negb _); [discriminate|]. destruct (item_event_name w (r_id r) (r_route r) i st) as [n|y]; [|discriminate].
+    apply F_sys_step_val in H. exact (F_never_unset _ _ _ H).
+  - destruct (negb _); [discriminate|]. apply F_sys_step_val in H. exact (F_never_unset _ _ _ H).
+Qed.
+
+Lemma F_item_status : forall x, status_in x UNUSED_STATUSES = false -> x <> S_UNSET -> status_in x ITEM_STATUSES = true.
+Proof. intros x H Hn. destruct x; try discriminate H; try reflexivity. exfalso; apply Hn; reflexivity. Qed.
+
+(* ---- status requests do not raise where it matters ---- *)
+Lemma F_req_name_valid : forall st, status_in st request_statuses_f = true ->
+  string_in (WORKFLOW_EVENT_PREFIX ++ status_name st) WORKFLOW_EXECUTION_EVENTS = true.
+Proof. intros st H. destruct st; try discriminate H; vm_compute; reflexivity. Qed.
+
+Lemma F_task_row : forall s, status_in s UNUSED_STATUSES = false -> tbl_row task_table s <> None.
+Proof. intros s H. destruct s; try discriminate H; vm_compute; discriminate. Qed.
+
+Lemma F_wf_row_held : forall s, In s [S_PAUSING; S_CANCELING] -> tbl_row wf_table s <> None.
+Proof. intros s [H|[H|[]]]; subst; vm_compute; discriminate. Qed.
+
+Lemma F_req_event_valid : forall st a d, status_in st request_statuses_f = true -> (d = true -> status_in st [S_RUNNING; S_RESUMING] = true) ->
+  string_in (request_event_name_of st a d) WORKFLOW_EXECUTION_EVENTS = true.
+Proof.
+  intros st a d H Hd. destruct d; [specialize (Hd eq_refl)|clear Hd]; destruct a; destruct st; try discriminate H; try discriminate Hd; vm_compute; reflexivity.
+Qed.
